@@ -12,6 +12,20 @@ func Copy(source, dest string) error {
 	}
 	defer in.Close()
 
+	/* copying a file onto itself (the destination is the directory the
+	 * file already lives in, or a link to the same file): os.Create would
+	 * truncate the source before a single byte is read. Nothing to do. */
+	if si, err := in.Stat(); err == nil {
+		di, err := os.Stat(dest)
+		if err == nil && os.SameFile(si, di) {
+			return nil
+		}
+		if err != nil && !os.IsNotExist(err) {
+			/* cannot tell what is there: do not risk it */
+			return err
+		}
+	}
+
 	out, err := os.Create(dest)
 	if err != nil {
 		return err
